@@ -283,6 +283,17 @@ def _group(ctx):
         raise AnalysisError("_group: element loop not found")
     loop = loops[0]
     vals = [n for n in loop.body if isinstance(n, ast.Assign) and norm(n.targets[0]) == 'val']
+    revals = [n for n in ast.walk(loop) if isinstance(n, ast.Assign) and norm(n.targets[0]) == 'val' and n not in vals]
+    if len(vals) == 1 and revals:
+        # the key is replaced afterwards, under a test of its own value: values that EXIST but are
+        # None / falsy are filed under the replacement
+        tests = [norm(t_) for t_, _p in guards(revals[0], stop=loop)]
+        ctx.violation('SINK', "_group: key is getattr(t, attribute, '<attr>: n/a')",
+                      f"`{norm(revals[0])}` (under {tests}) replaces the value read from the element: an attribute that exists "
+                      f"and is None (twp_num of an error TRS, source, qq_depth ...) is filed under the placeholder meant for "
+                      f"elements that LACK the attribute - two different groups are merged",
+                      key="SINK|_group|key", where=common.loc(fi, revals[0]))
+        return
     if len(vals) != 1:
         raise AnalysisError("_group: `val = ...` not found")
     v = vals[0].value
